@@ -367,6 +367,10 @@ fn message_loop(comms: &mut Comms) -> Result<(), ()> {
 /// and this function still returns Ok(). Error() variants returned from this function indicate a more catastrophic
 /// error, like a communication failure.
 fn exec_command(command: Command, comms: &mut Comms, context: &mut Option<DoerContext>) -> Result<bool, String> {
+    #[cfg(rjrssync_verif)]
+    if !matches!(command, Command::SetRoot{..} | Command::GetEntries{..} | Command::GetFileContent{..} | Command::Marker(..) | Command::Shutdown) {
+        verif_point("command");
+    }
     match command {
         Command::SetRoot { root } => {
             if let Err(e) = handle_set_root(comms, context, root) {
@@ -426,7 +430,11 @@ fn exec_command(command: Command, comms: &mut Comms, context: &mut Option<DoerCo
                 }
             };
 
+            #[cfg(rjrssync_verif)]
+            verif_point("file-open");
             let r = f.write_all(&data);
+            #[cfg(rjrssync_verif)]
+            verif_point("chunk-written");
             if let Err(e) = r {
                 comms.send_response(Response::Error(format!("Error writing file contents to '{}': {e}", full_path.display())))?;
                 return Ok(true);
@@ -441,6 +449,8 @@ fn exec_command(command: Command, comms: &mut Comms, context: &mut Option<DoerCo
 
             // After changing the content, we need to override the modified time of the file to that of the original,
             // otherwise it will immediately count as modified again if we do another sync.
+            #[cfg(rjrssync_verif)]
+            verif_point("handle-kept-or-dropped");
             if let Some(t) = set_modified_time {
                 trace!("Setting modifited time of '{}'", full_path.display());
                 let r =
@@ -449,6 +459,8 @@ fn exec_command(command: Command, comms: &mut Comms, context: &mut Option<DoerCo
                     comms.send_response(Response::Error(format!("Error setting modified time of '{}': {e}", full_path.display())))?;
                     return Ok(true);
                 }
+                #[cfg(rjrssync_verif)]
+                verif_point("mtime-set");
             }
         }
         Command::CreateFolder { path } => {
@@ -582,6 +594,31 @@ fn apply_filters(path: &RootRelativePath, filters: &Filters) -> FilterResult {
     }
 
     result
+}
+
+/// [verification hook] Gives the harness access to filter evaluation.
+#[cfg(rjrssync_verif)]
+pub fn verif_apply_filters(path: &RootRelativePath, filters: &Filters) -> bool {
+    apply_filters(path, filters) == FilterResult::Include
+}
+
+/// [verification hook] Crash points inside command execution: the process aborts when the
+/// environment variable names the n-th point reached (counted over the whole process).
+#[cfg(rjrssync_verif)]
+fn verif_point(name: &str) {
+    use std::sync::atomic::{AtomicUsize, Ordering};
+    static COUNTER: AtomicUsize = AtomicUsize::new(0);
+    if let Ok(v) = std::env::var("RJRSSYNC_VERIF_CRASH_AT") {
+        let n = COUNTER.fetch_add(1, Ordering::SeqCst) + 1;
+        if let Ok(log) = std::env::var("RJRSSYNC_VERIF_POINT_LOG") {
+            if let Ok(mut f) = std::fs::OpenOptions::new().append(true).create(true).open(log) {
+                let _ = writeln!(f, "{n} {name}");
+            }
+        }
+        if v.parse::<usize>() == Ok(n) {
+            std::process::abort();
+        }
+    }
 }
 
 /// Filter callback used when iterating over directory contents.
